@@ -408,7 +408,7 @@ func (r *Run) applyModifies(env *Env, st *State, m *SX) {
 			if srt == "" {
 				continue
 			}
-			n := sliceArrayName(et, lf.name)
+			n := sliceArrayName(et, lf.name) + v.Fam
 			arr := r.heapArr(st, n, "(Array Int "+srt+")")
 			r.setHeapArr(st, n, "(Array Int "+srt+")", app("store", arr, v.Ref, r.fresh("elems", "(Array Int "+srt+")")))
 		}
@@ -687,8 +687,10 @@ func (r *Run) appendBuiltin(fr *Frame, st *State, args []*Val) *Val {
 		}
 		n := sliceArrayName(et, lf.name)
 		arr := r.heapArr(st, n, "(Array Int "+srt+")")
+		sarr := r.heapArr(st, n+s.Fam, "(Array Int "+srt+")")
+		tarr := r.heapArr(st, n+t.Fam, "(Array Int "+srt+")")
 		na := r.fresh("append.arr", "(Array Int "+srt+")")
-		st.assume(fmt.Sprintf("(forall ((i Int)) (=> (and (<= 0 i) (< i %s)) (= (select %s i) (select (select %s %s) (+ %s i)))))", s.Len, na, arr, s.Ref, s.Off))
+		st.assume(fmt.Sprintf("(forall ((i Int)) (=> (and (<= 0 i) (< i %s)) (= (select %s i) (select (select %s %s) (+ %s i)))))", s.Len, na, sarr, s.Ref, s.Off))
 		if t.FromCell != nil {
 			tv := st.cells[t.FromCell.id]
 			for i, ev := range tv.Elems {
@@ -699,7 +701,7 @@ func (r *Run) appendBuiltin(fr *Frame, st *State, args []*Val) *Val {
 				st.assume(app("=", app("select", na, app("+", s.Len, fmt.Sprint(i))), r.termOf(lv)))
 			}
 		} else if t.K == KSlice {
-			st.assume(fmt.Sprintf("(forall ((i Int)) (=> (and (<= 0 i) (< i %s)) (= (select %s (+ %s i)) (select (select %s %s) (+ %s i)))))", t.Len, na, s.Len, arr, t.Ref, t.Off))
+			st.assume(fmt.Sprintf("(forall ((i Int)) (=> (and (<= 0 i) (< i %s)) (= (select %s (+ %s i)) (select (select %s %s) (+ %s i)))))", t.Len, na, s.Len, tarr, t.Ref, t.Off))
 		}
 		r.setHeapArr(st, n, "(Array Int "+srt+")", app("store", arr, res.Ref, na))
 	}
